@@ -24,6 +24,8 @@ pub enum IoOp {
     ExtendRef(usize),
     /// Read::read_exact into d bytes: Ok and d bytes removed if d <= len, otherwise UnexpectedEof
     ReadExact(usize),
+    /// BufRead::read_until(delimiter = the byte at this position of the contents, or an absent byte)
+    ReadUntil(usize),
 }
 
 #[derive(Clone, Copy, Debug, PartialEq, Eq)]
@@ -223,6 +225,47 @@ fn apply<const N: usize>(b: &mut BBuf<N>, op: IoOp, api: Api, payload: &[u8]) ->
             }
             IoOut { ret, bytes: dst, untouched_ok: true }
         }
+        IoOp::ReadUntil(_) => {
+            let delim = payload.first().copied().unwrap_or(0);
+            let mut v: Vec<u8> = vec![];
+            let ret: Result<usize, String> = match api {
+                Api::Std => std::io::BufRead::read_until(b, delim, &mut v).map_err(|e| e.to_string()),
+                _ => {
+                    // the same algorithm through the other trait family's fill_buf / consume
+                    let mut total = 0usize;
+                    loop {
+                        let chunk: Result<Vec<u8>, String> = match api {
+                            #[cfg(feature = "eio")]
+                            Api::Eio => embedded_io::BufRead::fill_buf(b).map(|s| s.to_vec()).map_err(|e| format!("{:?}", e)),
+                            #[cfg(feature = "eioa")]
+                            Api::Eioa => noop_block(embedded_io_async::BufRead::fill_buf(b)).and_then(|r| r.map(|s| s.to_vec()).map_err(|e| format!("{:?}", e))),
+                            _ => Err("api not built".into()),
+                        };
+                        let chunk = match chunk {
+                            Ok(c) => c,
+                            Err(e) => break Err(e),
+                        };
+                        let (done, used) = match chunk.iter().position(|x| *x == delim) {
+                            Some(i) => (true, i + 1),
+                            None => (false, chunk.len()),
+                        };
+                        v.extend_from_slice(&chunk[..used]);
+                        match api {
+                            #[cfg(feature = "eio")]
+                            Api::Eio => embedded_io::BufRead::consume(b, used),
+                            #[cfg(feature = "eioa")]
+                            Api::Eioa => embedded_io_async::BufRead::consume(b, used),
+                            _ => {}
+                        }
+                        total += used;
+                        if done || used == 0 {
+                            break Ok(total);
+                        }
+                    }
+                }
+            };
+            IoOut { ret, bytes: v, untouched_ok: true }
+        }
         IoOp::ReadToEnd => {
             let mut v = vec![];
             let ret = match api {
@@ -329,6 +372,7 @@ fn step_std<const N: usize>(b: &mut BBuf<N>, m: &mut VecDeque<u8>, op: IoOp, nex
                 *next
             })
             .collect(),
+        IoOp::ReadUntil(pos) => vec![m.get(pos).copied().unwrap_or(0)],
         _ => vec![],
     };
     crate::alloc::scope_begin();
@@ -408,6 +452,19 @@ fn step_std<const N: usize>(b: &mut BBuf<N>, m: &mut VecDeque<u8>, op: IoOp, nex
                 m.clear();
             }
         }
+        IoOp::ReadUntil(_) => {
+            let delim = payload[0];
+            let want: Vec<u8> = match before.iter().position(|x| *x == delim) {
+                Some(i) => before[..=i].to_vec(),
+                None => before.clone(),
+            };
+            if out.ret != Ok(want.len()) || out.bytes != want {
+                viol14(ctx, N, op, "wrong_read", format!("read_until({}) from {:?}: {:?} {:?}, expected {:?}", delim, before, out.ret, out.bytes, want));
+            }
+            for _ in 0..want.len() {
+                m.pop_front();
+            }
+        }
         IoOp::ReadToEnd => {
             if out.ret != Ok(before.len()) || out.bytes != before {
                 viol14(ctx, N, op, "wrong_read", format!("read_to_end from {:?}: {:?} {:?}", before, out.ret, out.bytes));
@@ -447,6 +504,9 @@ fn ops_for(n: usize, thorough: bool) -> Vec<IoOp> {
     v.push(IoOp::ReadExact(1));
     v.push(IoOp::ReadExact(n));
     v.push(IoOp::ReadExact(n + 1));
+    v.push(IoOp::ReadUntil(0));
+    v.push(IoOp::ReadUntil(n / 2 + 1));
+    v.push(IoOp::ReadUntil(usize::MAX));
     for d in 0..=n + 2 {
         v.push(IoOp::Read(d));
     }
@@ -611,7 +671,7 @@ pub fn io_random<const N: usize>(ctx: &mut Ctx) {
                 4..=5 => IoOp::Read(pickn(&mut rng, cur)),
                 6 => IoOp::FillBuf,
                 7 => IoOp::Consume(if rng.chance(1, 10) { usize::MAX } else { pickn(&mut rng, cur) }),
-                8 => *rng.pick(&[IoOp::Flush, IoOp::ReadToEnd, IoOp::WriteAll(N / 2 + 1), IoOp::ReadExact(cur), IoOp::ReadExact(cur + 1), IoOp::ReadExact(cur / 2), IoOp::ExtendRef(N / 3 + 1)]),
+                8 => *rng.pick(&[IoOp::Flush, IoOp::ReadToEnd, IoOp::WriteAll(N / 2 + 1), IoOp::ReadExact(cur), IoOp::ReadExact(cur + 1), IoOp::ReadExact(cur / 2), IoOp::ExtendRef(N / 3 + 1), IoOp::ReadUntil(cur / 2), IoOp::ReadUntil(cur.saturating_sub(1)), IoOp::ReadUntil(usize::MAX)]),
                 _ => IoOp::Read(pickn(&mut rng, N)),
             };
             if let Some(s) = front_slot(&b) {
